@@ -204,10 +204,10 @@ fn op_static(op: &str) -> Option<&'static str> {
 }
 
 /// Budget of the allocator seam for a world: a single request above max(4 MiB, 1024 x input) or more
-/// than 1 GiB live is "memory the input does not justify".
+/// than max(256 MiB, 2048 x input) live is "memory the input does not justify".
 pub fn arm_for(w: &World) {
   let single = (4usize << 20).max(1024 * w.size());
-  alloc::arm(single, 1 << 30);
+  alloc::arm(single, (256usize << 20).max(2048 * w.size()));
 }
 
 pub fn exec_world_ops(w: &World) -> (Vec<OpOut>, Vec<Violation>) {
@@ -564,6 +564,14 @@ impl C05G {
   }
 }
 
+fn growth_limit(f: Family) -> f64 {
+  if is_nesting(f) {
+    12.0
+  } else {
+    64.0
+  }
+}
+
 fn is_nesting(f: Family) -> bool {
   !matches!(f, Family::ManyRules | Family::ManyChoices | Family::LongArray | Family::WideMap | Family::OptionalRun)
 }
@@ -585,7 +593,15 @@ impl Check for C05G {
     let op = GROWTH_OPS[(idx as usize) % GROWTH_OPS.len()];
     let params: Vec<usize> = if is_nesting(f) { vec![4, 8, 12, 16] } else { vec![50, 100, 200, 400] };
     let mut counts: Vec<u64> = Vec::new();
-    for n in &params {
+    for (pi, n) in params.iter().enumerate() {
+      // the input of ChoiceOfMaps doubles per level by construction: its series is not a growth claim
+      if f == Family::ChoiceOfMaps {
+        break;
+      }
+      // decided already (two ratios above the limit): the last, most expensive point adds nothing
+      if pi == 3 && counts.len() == 3 && counts[1] as f64 / counts[0] as f64 >= growth_limit(f) && counts[2] as f64 / counts[1] as f64 >= growth_limit(f) {
+        break;
+      }
       let c = family_case(f, *n);
       let w = World {
         schema: c.schema.into_bytes(),
@@ -616,7 +632,7 @@ impl Check for C05G {
     }
     // nesting: +4 levels must not multiply the work by >= 12 twice in a row (doubling per level is 16x);
     // size: doubling n must not multiply the work by >= 64 twice in a row (anything up to degree 5 stays below).
-    let limit = if is_nesting(f) { 12.0 } else { 64.0 };
+    let limit = growth_limit(f);
     let ratios: Vec<f64> = counts.windows(2).map(|w| w[1] as f64 / w[0] as f64).collect();
     let bad = ratios.windows(2).any(|r| r[0] >= limit && r[1] >= limit);
     if bad {
